@@ -62,7 +62,7 @@ PROPS = {
     "C13": dict(engine="e1", quick=2500, thorough=60000, level="exploration",
                 text="Cyclic programs whose block members use cycle_result; expected = fallback for every node on a cycle of the input-determined call graph (SCC analysis in the reference), body value over those results elsewhere; all entry orders within a revision, and histories that form/break cycles. One genuine defect is recorded (known-findings.txt) and matched by its own diagnosis class; every other mismatch is a violation.",
                 note="The single-revision class is free of the recorded finding's trigger; the history class reports it as KNOWN-FINDING."),
-    "C14": dict(parts=[dict(engine="e1", quick=8000, thorough=150000), dict(engine="e3", quick=2000, thorough=30000)], level="exploration",
+    "C14": dict(parts=[dict(engine="e1", quick=4000, thorough=150000), dict(engine="e3", quick=1000, thorough=30000)], level="exploration",
                 text="Cyclic programs whose block mixes functions without recovery and q_fix; per request: a cycle panic is required on a fresh database when the from-scratch DFS re-enters a non-recovering function, allowed whenever such a function lies on a reachable cycle, otherwise the least-fixpoint value is required; after a panic the same revision may report PropagatedPanic for poisoned heads; later revisions and unrelated nodes = reference. (single-thread part; the multi-thread part runs on E3)",
                 note="Hang detection single-threaded = the run returns; cross-thread part pending E3."),
     "C15": dict(engine="e1", quick=6000, thorough=100000, level="exploration",
@@ -89,6 +89,12 @@ PROPS = {
     "C24": dict(level="exploration", parts=[dict(engine="e3", quick=1200, thorough=30000)],
                 text="Threads create inputs, tracked structs (through queries on distinct keys) and interned values concurrently while handles are cloned and dropped; ids of inputs pairwise distinct, tracked-struct ids distinct per (creator, ident), every id reads back the fields it was created with.",
                 note="Page recycling is exercised through clone/drop of handles; the small-page knob is not built."),
+    "C22": dict(level="fault_enumeration", parts=[dict(engine="e1", quick=500, thorough=10000), dict(engine="e3", quick=800, thorough=20000)],
+                text="Fault enumeration (E1): every generated base history is first run fault-free to count user callbacks by class (body op, V::eq, V::hash, cycle_fn, cycle_initial/cycle_result, event callback); it is then re-run with a panic injected at every callback of the rare classes and a sample of body ops. Oracle: the panic reaches the caller of that step, the step is retried (after a new revision for poisoned cycle members) and every later result = reference; a process abort (double panic) is reported from the worker's seed file. Concurrent part (E3): a panic at a random callback while other threads request the same or dependent nodes: waiters get PropagatedPanic or a correct value, never hang.",
+                note="One genuine defect was repaired (fix: commit f6eb44f), one is recorded (known-findings.txt: stale-output deletion interrupted by an event-callback panic)."),
+    "C26": dict(level="exploration", parts=[dict(engine="e1p", quick=6000, thorough=100000)],
+                text="Histories with SnapshotRestore steps (serde_json round trip of the whole database into a fresh database of the same type = crash/restart with only durable state surviving) at arbitrary points; every persisted function returns the reference value on the restored database, unchanged persisted results are not re-executed (justification model), the history continues with values = reference.",
+                note="q_noeq / q_lru are deliberately not persisted (dependency flattening); recorded findings are matched by their own classes."),
 }
 
 COMPONENTS = {
